@@ -1565,9 +1565,15 @@ namespace Dune {
   template<typename T, typename A, bool mode>
   RemoteIndexListModifier<T,A,mode>::RemoteIndexListModifier(const RemoteIndexListModifier<T,A,mode>& other)
     : rList_(other.rList_), indexSet_(other.indexSet_),
-      glist_(other.glist_), iter_(other.iter_), giter_(other.giter_), end_(other.end_),
+      glist_(other.glist_), iter_(other.iter_), giter_(), end_(other.end_),
       first_(other.first_), last_(other.last_)
-  {}
+  {
+    // giter_ has to walk OUR copy of the global index list, not the one of other:
+    // move it to the position other.giter_ has in other.glist_
+    giter_ = glist_.beginModify();
+    for(GlobalModifyIterator pos = const_cast<GlobalList&>(other.glist_).beginModify(); pos != other.giter_; ++pos)
+      ++giter_;
+  }
 
   template<typename T, typename A, bool mode>
   inline void RemoteIndexListModifier<T,A,mode>::repairLocalIndexPointers()
